@@ -14,6 +14,7 @@ Oracles are the tables INTRODUCED / normal_status() / FEATURES below, written fr
 /repo/placement/rest_api_version_history.rst and /repo/api-ref/source/*.inc, parameters.yaml.
 """
 import json
+import re
 
 from vp import enum as vpenum
 from vp.check import HarnessError
@@ -411,6 +412,20 @@ def a_request(s, route, method, v):
     return path, body, query
 
 
+_UUID = re.compile(r'[0-9a-f]{8}-[0-9a-f]{4}-[0-9a-f]{4}-[0-9a-f]{4}-[0-9a-f]{12}')
+
+
+def template(method, path):
+    """'METHOD /route/template' of a concrete path (same spelling as Part A's cells)."""
+    if path == UNKNOWN_ROUTE:
+        return '<unknown route>'
+    t = _UUID.sub('{uuid}', path)
+    t = t.replace('/allocations/{uuid}', '/allocations/{consumer_uuid}')
+    t = re.sub(r'^/(traits|resource_classes)/[^/]+$', r'/\1/{name}', t)
+    t = re.sub(r'/inventories/[^/]+$', '/inventories/{resource_class}', t)
+    return '%s %s' % (method, t)
+
+
 def lower(headers):
     return {k.lower(): v for k, v in (headers or {}).items()}
 
@@ -518,8 +533,10 @@ class Feature(object):
                               version is lower than `since` (None: 'absent or rejected')
     """
 
-    def __init__(self, fid, since, doc, probe, present, until=None, below=None, after=None):
+    def __init__(self, fid, since, doc, probe, present, until=None, below=None, after=None,
+                 note=None):
         self.id, self.since, self.until, self.doc = fid, since, until or MAXV, doc
+        self.note = note        # note(s, v, resps) -> str: an observation outside C14's scope
         self.probe, self.present, self.below, self.after = probe, present, below, after
         if fid in FEATURE_BY_ID:
             raise ValueError(fid)
@@ -530,16 +547,15 @@ class Feature(object):
         return self.since <= v <= self.until
 
 
-def judge_b(f, vv, resps, s):
+def judge_b(f, vv, resps, s, cells=None):
     """resps: list of (status, headers, json, vv id).  -> (present, [(sig, msg)])"""
     v = vv['applied']
     out = []
     for st, hd, _, _ in resps:
         if st >= 500:
             return None, [('server-error:%s:%s' % (f.id, st), 'probe answered %s' % st)]
-    for st, hd, _, rvv in resps:
-        for sig, msg in check_version_headers(VV_BY_ID[rvv], lower(hd),
-                                              '%s:feature %s' % (st, f.id)):
+    for (st, hd, _, rvv), cell in zip(resps, cells or [f.id] * len(resps)):
+        for sig, msg in check_version_headers(VV_BY_ID[rvv], lower(hd), '%s:%s' % (st, cell)):
             out.append((sig, msg))
     try:
         present = bool(f.present(s, v, resps))
@@ -548,7 +564,7 @@ def judge_b(f, vv, resps, s):
         if f.expected(v):
             out.append(('predicate-error:%s' % f.id, 'predicate failed on response: %r' % e))
     exp = f.expected(v)
-    last = resps[-1][0]
+    last = resps[0][0]          # the probing request; later ones only read the effect back
     if present != exp:
         kind = 'missing' if exp else ('early' if v < f.since else 'late')
         out.append(('feature-%s:%s' % (kind, f.id),
@@ -902,10 +918,16 @@ def error_code_feature(name, method, path, status, body=None, query=None, code=N
         return [(method, path, body(s, max(v, first)) if callable(body) else body, query)]
 
     def present(s, v, r):
-        e = r[0][2]['errors'][0]
-        return r[0][0] == status and (e.get('code') == code if code else bool(e.get('code')))
+        c = r[0][2]['errors'][0].get('code')
+        return r[0][0] == status and isinstance(c, str) and c.startswith('placement.')
+
+    def note(s, v, r):
+        # which code is used is not a matter of versioning: recorded, not judged
+        c = r[0][2]['errors'][0].get('code')
+        if code and c != code:
+            return '%s %s answers code %s, errors.inc describes %s' % (method, path, c, code)
     return Feature('1.23 error code: ' + name, (1, 23), HIST + '1.23; errors.inc', probe,
-                   present)
+                   present, note=note)
 
 
 error_code_feature('404 unknown provider', 'GET', RP + '/' + PNEW, 404,
@@ -955,7 +977,8 @@ ac_filter('1.25 a_c group_policy=isolate', (1, 25), HIST + '1.25',
           lambda s: frozenset(), base=lambda s: s.singles(s.having('VCPU')))
 ac_filter('1.25 a_c group_policy=none', (1, 25), HIST + '1.25',
           'resources1=VCPU:1&resources2=MEMORY_MB:1&group_policy=none',
-          lambda s: s.singles(s.having('VCPU') & s.having('MEMORY_MB')))
+          lambda s: s.singles(s.having('VCPU') & s.having('MEMORY_MB')),
+          base=lambda s: frozenset())
 # -- 1.26 --------------------------------------------------------------------------------------
 status_feature('1.26 PUT inventory reserved == total', (1, 26), HIST + '1.26', 'PUT',
                RP + '/%s/inventories/VCPU' % P(3),
@@ -976,6 +999,201 @@ json_feature('1.10-1.26 a_c only requested classes in provider summaries', (1, 1
              lambda j, s: all(set(j['provider_summaries'][u]['resources']) == {'VCPU'}
                               for u in s.having('VCPU')),
              query='resources=VCPU:1', until=(1, 26))
+
+# -- 1.28 --------------------------------------------------------------------------------------
+json_feature('1.28 GET allocations shows consumer_generation', (1, 28), HIST + '1.28', 'GET',
+             '/allocations/' + K(1),
+             lambda j, s: j.get('consumer_generation') == s.cgen[K(1)])
+json_feature('1.28 GET rp allocations shows consumer_generation', (1, 28), HIST + '1.28',
+             'GET', RP + '/%s/allocations' % P(1),
+             lambda j, s: j['allocations'] and all(
+                 'consumer_generation' in a for a in j['allocations'].values()))
+status_feature('1.28 PUT allocations requires consumer_generation', (1, 28), HIST + '1.28',
+               'PUT', '/allocations/' + KNEW,
+               body=lambda s, v: _without(alloc_body(v, {P(3): {'VCPU': 1}}),
+                                          'consumer_generation'),
+               want=(400,), below={204})
+Feature('1.28 PUT allocations consumer generation conflict', (1, 28), HIST + '1.28',
+        lambda s, v: [('PUT', '/allocations/' + K(1),
+                       dict(alloc_body(v, {P(1): {'VCPU': 2}}, project=PJ1, user=U1),
+                            consumer_generation=s.cgen[K(1)] + 7), None)],
+        lambda s, v, r: r[0][0] == 409)
+Feature('1.28 PUT allocations accepts empty allocations', (1, 28), HIST + '1.28',
+        lambda s, v: [('PUT', '/allocations/' + K(1),
+                       alloc_body(max(v, (1, 12)), {}, project=PJ1, user=U1,
+                                  cgen=s.cgen[K(1)]), None),
+                      ('GET', '/allocations/' + K(1), None, None, '1.28')],
+        lambda s, v, r: r[0][0] == 204 and r[1][2]['allocations'] == {}, below={400})
+status_feature('1.28 POST /allocations requires consumer_generation', (1, 28), HIST + '1.28',
+               'POST', '/allocations',
+               body=lambda s, v: {KNEW: _without(
+                   alloc_body(max(v, (1, 13)), {P(3): {'VCPU': 1}}), 'consumer_generation')},
+               want=(400,))
+Feature('1.28 POST /allocations consumer generation conflict', (1, 28), HIST + '1.28',
+        lambda s, v: [('POST', '/allocations',
+                       {K(1): dict(alloc_body(max(v, (1, 13)), {P(1): {'VCPU': 2}},
+                                              project=PJ1, user=U1),
+                                   consumer_generation=s.cgen[K(1)] + 7)}, None)],
+        lambda s, v, r: r[0][0] == 409)
+# -- 1.29 --------------------------------------------------------------------------------------
+json_feature('1.29 a_c parent/root in provider summaries', (1, 29), HIST + '1.29', 'GET', AC,
+             lambda j, s: all(_nested(x, s) for x in j['provider_summaries'].values()) and
+             j['provider_summaries'][P(1)]['root_provider_uuid'] == P(1),
+             query='resources=VCPU:1')
+ac_filter('1.29 a_c nested providers', (1, 29), HIST + '1.29',
+          'resources=VCPU:1,%s:1' % VF, lambda s: s.nested_pairs(),
+          base=lambda s: frozenset())
+json_feature('1.29 a_c whole tree in provider summaries', (1, 29),
+             REF + 'parameters.yaml provider_summaries_1_12', 'GET', AC,
+             lambda j, s: set(j['provider_summaries']) == set().union(
+                 *[s.tree(u) for u in s.having('VCPU')]), query='resources=VCPU:1')
+# -- 1.30 --------------------------------------------------------------------------------------
+status_feature('1.30 POST /reshaper', (1, 30), HIST + '1.30', 'POST', '/reshaper',
+               body=lambda s, v: reshaper_body(s, v), want=(204,), below={404})
+Feature('1.30 POST /reshaper changes inventory', (1, 30), HIST + '1.30',
+        lambda s, v: [('POST', '/reshaper', reshaper_body(s, v, with_allocations=False), None),
+                      ('GET', RP + '/%s/inventories/VCPU' % P(1), None, None, '1.0')],
+        lambda s, v, r: r[0][0] == 204 and r[1][2]['total'] == 16, below={404})
+# -- 1.31 --------------------------------------------------------------------------------------
+ac_filter('1.31 a_c in_tree', (1, 31), HIST + '1.31', 'resources=VCPU:1&in_tree=' + P(4),
+          lambda s: s.singles(s.having('VCPU') & s.tree(P(1))))
+ac_filter('1.31 a_c in_tree<N>', (1, 31), HIST + '1.31', 'resources1=VCPU:1&in_tree1=' + P(2),
+          lambda s: s.singles(s.having('VCPU') & s.tree(P(2))))
+# -- 1.32 --------------------------------------------------------------------------------------
+rp_filter('1.32 rp forbidden aggregate', (1, 32), HIST + '1.32', 'member_of=!' + A1,
+          lambda s: s.all - s.in_any_agg(A1))
+rp_filter('1.32 rp forbidden aggregates !in:', (1, 32), HIST + '1.32',
+          'member_of=!in:%s,%s' % (A1, A3), lambda s: s.all - s.in_any_agg(A1, A3))
+rp_filter('1.32 rp positive and forbidden aggregate', (1, 32), HIST + '1.32',
+          'member_of=%s&member_of=!%s' % (A2, A1),
+          lambda s: s.in_any_agg(A2) - s.in_any_agg(A1))
+ac_filter('1.32 a_c forbidden aggregate', (1, 32), HIST + '1.32',
+          'resources=VCPU:1&member_of=!' + A1,
+          lambda s: s.singles(s.having('VCPU') - s.in_any_agg(A1)))
+ac_filter('1.32 a_c granular forbidden aggregate', (1, 32),
+          REF + 'parameters.yaml allocation_candidates_member_of_granular',
+          'resources1=VCPU:1&member_of1=!' + A1,
+          lambda s: s.singles(s.having('VCPU') - s.in_any_agg(A1)))
+# -- 1.33 --------------------------------------------------------------------------------------
+ac_filter('1.33 a_c string suffix', (1, 33), HIST + '1.33', 'resources_C14-x=VCPU:1',
+          lambda s: s.singles(s.having('VCPU')), base=lambda s: frozenset())
+ac_filter('1.33 a_c string suffix with required', (1, 33), HIST + '1.33',
+          'resources_NET=VCPU:1&required_NET=' + TB,
+          lambda s: s.singles(s.having('VCPU') & s.with_traits(TB)))
+# -- 1.34 --------------------------------------------------------------------------------------
+json_feature('1.34 a_c mappings', (1, 34), HIST + '1.34', 'GET', AC,
+             lambda j, s: j['allocation_requests'] and all(
+                 a.get('mappings') == {'': sorted(a['allocations'])}
+                 for a in j['allocation_requests']), query='resources=VCPU:1')
+status_feature('1.34 PUT allocations accepts mappings', (1, 34), HIST + '1.34', 'PUT',
+               '/allocations/' + KNEW,
+               body=lambda s, v: dict(alloc_body(max(v, (1, 12)), {P(3): {'VCPU': 1}}),
+                                      mappings={'': [P(3)]}), want=(204,), below={400})
+status_feature('1.34 POST /allocations accepts mappings', (1, 34), HIST + '1.34', 'POST',
+               '/allocations',
+               body=lambda s, v: {KNEW: dict(alloc_body(max(v, (1, 13)), {P(3): {'VCPU': 1}}),
+                                             mappings={'': [P(3)]})}, want=(204,))
+
+
+def _reshaper_with(s, v, **extra):
+    b = reshaper_body(s, v)
+    b['allocations'][K(1)].update(extra)
+    return b
+
+
+status_feature('1.34 POST /reshaper accepts mappings', (1, 34), HIST + '1.34', 'POST',
+               '/reshaper', body=lambda s, v: _reshaper_with(s, v, mappings={'': [P(1)]}),
+               want=(204,))
+# -- 1.35 --------------------------------------------------------------------------------------
+ac_filter('1.35 a_c root_required', (1, 35), HIST + '1.35',
+          'resources=VCPU:1&root_required=' + TB,
+          lambda s: s.singles(s.having('VCPU') & s.with_traits(TB)))
+ac_filter('1.35 a_c root_required forbidden', (1, 35), HIST + '1.35',
+          'resources=VCPU:1&root_required=!' + TB,
+          lambda s: s.singles(s.having('VCPU') - s.with_traits(TB)))
+# -- 1.36 --------------------------------------------------------------------------------------
+ac_filter('1.36 a_c same_subtree', (1, 36), HIST + '1.36',
+          'resources_A=VCPU:1&resources_B=%s:1&same_subtree=_A,_B&group_policy=none' % VF,
+          lambda s: s.nested_pairs(), base=lambda s: frozenset())
+ac_filter('1.36 a_c resourceless group in same_subtree', (1, 36), HIST + '1.36',
+          'resources_A=VCPU:1&required_B=%s&same_subtree=_A,_B&group_policy=none' % TC,
+          lambda s: s.singles(u for u in s.having('VCPU')
+                              if s.tree(u) & s.with_traits(TC)))
+# -- 1.37 --------------------------------------------------------------------------------------
+Feature('1.37 PUT provider un-parents', (1, 37), HIST + '1.37',
+        lambda s, v: [('PUT', RP + '/' + P(4), {'name': s.prov[P(4)]['name'],
+                                                 'parent_provider_uuid': None}, None),
+                      ('GET', RP + '/' + P(4), None, None, '1.14')],
+        lambda s, v, r: r[0][0] == 200 and r[1][2]['parent_provider_uuid'] is None and
+        r[1][2]['root_provider_uuid'] == P(4), below={400})
+Feature('1.37 PUT provider re-parents', (1, 37), HIST + '1.37',
+        lambda s, v: [('PUT', RP + '/' + P(4), {'name': s.prov[P(4)]['name'],
+                                                 'parent_provider_uuid': P(3)}, None),
+                      ('GET', RP + '/' + P(4), None, None, '1.14')],
+        lambda s, v, r: r[0][0] == 200 and r[1][2]['parent_provider_uuid'] == P(3) and
+        r[1][2]['root_provider_uuid'] == P(3), below={400})
+# -- 1.38 --------------------------------------------------------------------------------------
+status_feature('1.38 PUT allocations requires consumer_type', (1, 38), HIST + '1.38', 'PUT',
+               '/allocations/' + KNEW,
+               body=lambda s, v: _without(alloc_body(v, {P(3): {'VCPU': 1}}),
+                                          'consumer_type'), want=(400,), below={204})
+Feature('1.38 PUT allocations records consumer_type', (1, 38), HIST + '1.38',
+        lambda s, v: [('PUT', '/allocations/' + KNEW,
+                       dict(alloc_body(max(v, (1, 12)), {P(3): {'VCPU': 1}}),
+                            consumer_type='C14TYPE'), None),
+                      ('GET', '/allocations/' + KNEW, None, None, '1.38')],
+        lambda s, v, r: r[0][0] == 204 and r[1][2].get('consumer_type') == 'C14TYPE',
+        below={400})
+json_feature('1.38 GET allocations shows consumer_type', (1, 38), HIST + '1.38', 'GET',
+             '/allocations/' + K(1), lambda j, s: j.get('consumer_type') == 'INSTANCE')
+status_feature('1.38 POST /allocations requires consumer_type', (1, 38), HIST + '1.38',
+               'POST', '/allocations',
+               body=lambda s, v: {KNEW: _without(
+                   alloc_body(max(v, (1, 13)), {P(3): {'VCPU': 1}}), 'consumer_type')},
+               want=(400,))
+status_feature('1.38 POST /allocations accepts consumer_type', (1, 38), HIST + '1.38', 'POST',
+               '/allocations',
+               body=lambda s, v: {KNEW: dict(alloc_body(max(v, (1, 13)), {P(3): {'VCPU': 1}}),
+                                             consumer_type='C14TYPE')}, want=(204,))
+json_feature('1.38 GET /usages consumer_type filter', (1, 38), HIST + '1.38', 'GET', '/usages',
+             lambda j, s: set(j['usages']) == {'INSTANCE'},
+             query='project_id=%s&consumer_type=INSTANCE' % PJ1)
+json_feature('1.38 GET /usages grouped by consumer type', (1, 38), HIST + '1.38', 'GET',
+             '/usages',
+             lambda j, s: set(j['usages']) == {c['type'] for c in s.cons.values()
+                                               if c['project'] == PJ1} and
+             all('consumer_count' in x for x in j['usages'].values()),
+             query='project_id=' + PJ1)
+json_feature('1.9-1.37 GET /usages flat', (1, 9),
+             REF + 'usages.inc "Response (microversions 1.9 - 1.36)"', 'GET', '/usages',
+             lambda j, s: j['usages'] and all(isinstance(x, int) for x in j['usages'].values()),
+             query='project_id=' + PJ1, until=(1, 37))
+status_feature('1.38 POST /reshaper requires consumer_type', (1, 38), HIST + '1.38', 'POST',
+               '/reshaper',
+               body=lambda s, v: reshaper_body(s, min(max(v, (1, 30)), (1, 37))),
+               want=(400,))
+status_feature('1.38 POST /reshaper accepts consumer_type', (1, 38), HIST + '1.38', 'POST',
+               '/reshaper', body=lambda s, v: reshaper_body(s, (1, 38)), want=(204,))
+# -- 1.39 --------------------------------------------------------------------------------------
+rp_filter('1.39 rp required=in:', (1, 39), HIST + '1.39', 'required=in:%s,%s' % (TA, TB),
+          lambda s: s.with_any_trait(TA, TB))
+rp_filter('1.39 rp repeated required', (1, 39), HIST + '1.39',
+          'required=%s&required=%s' % (TA, TB), lambda s: s.with_traits(TA, TB))
+rp_filter('1.39 rp required=in: with forbidden', (1, 39), HIST + '1.39',
+          'required=in:%s,%s&required=!%s' % (TB, TC, TA),
+          lambda s: s.with_any_trait(TB, TC) - s.with_traits(TA))
+ac_filter('1.39 a_c required=in:', (1, 39), HIST + '1.39',
+          'resources=VCPU:1&required=in:%s,%s' % (TB, TC),
+          lambda s: s.singles(s.having('VCPU') & s.with_any_trait(TB, TC)))
+ac_filter('1.39 a_c repeated required', (1, 39), HIST + '1.39',
+          'resources=VCPU:1&required=%s&required=%s' % (TA, TB),
+          lambda s: s.singles(s.having('VCPU') & s.with_traits(TA, TB)))
+ac_filter('1.39 a_c required<N>=in:', (1, 39), HIST + '1.39',
+          'resources1=VCPU:1&required1=in:%s,%s' % (TB, TC),
+          lambda s: s.singles(s.having('VCPU') & s.with_any_trait(TB, TC)))
+ac_filter('1.39 a_c repeated required<N>', (1, 39), HIST + '1.39',
+          'resources1=VCPU:1&required1=%s&required1=%s' % (TA, TB),
+          lambda s: s.singles(s.having('VCPU') & s.with_traits(TA, TB)))
 
 
 # FEATURES-END
@@ -1001,6 +1219,8 @@ class Worker(vpenum.EnumWorker):
     def case(self, c):
         img, s = self.state(c['state'])
         self.restore(img)
+        if c['part'] == 'T':
+            return {'status': 0, 'viol': judge_table(), 'n': 0, 'reqs': None, 'resp': None}
         vv = VV_BY_ID[c['vv']]
         if c['part'] == 'A':
             v = vv['applied'] or MAXV
@@ -1020,11 +1240,33 @@ class Worker(vpenum.EnumWorker):
             resp, _ = self.call(rq)
             resps.append((resp.status, resp.headers, resp.json,
                           vv['id'] if len(t) == 4 else t[4]))
-        present, viol = judge_b(f, vv, resps, s)
-        return {'status': resps[-1][0], 'present': present, 'viol': viol, 'n': len(rqs),
+        present, viol = judge_b(f, vv, resps, s, [template(t[0], t[1]) for t in probe])
+        note = f.note(s, vv['applied'], resps) if f.note and present else None
+        return {'status': resps[0][0], 'present': present, 'viol': viol, 'n': len(rqs),
+                'note': note,
                 'reqs': rqs if viol else None,
                 'resp': {'status': resps[-1][0],
                          'body': json.dumps(resps[-1][2])[:400]} if viol else None}
+
+
+def judge_table():
+    """The declared routing table against the documented one (closes the space: an operation
+    the service declares but the documentation does not know would otherwise go unprobed)."""
+    from placement import handler
+    from placement import microversion
+    out = []
+    declared = {(r, m) for r, ms in handler.ROUTE_DECLARATIONS.items() for m in ms}
+    for r, m in sorted(declared - set(INTRODUCED) - UNDOCUMENTED):
+        out.append(('undocumented-operation:%s %s' % (m, r),
+                    'the service declares %s %s, which no documentation mentions' % (m, r)))
+    for r, m in sorted(set(INTRODUCED) - declared):
+        out.append(('undeclared-operation:%s %s' % (m, r),
+                    'documented operation %s %s is not in the routing table' % (m, r)))
+    if (microversion.min_version_string(), microversion.max_version_string()) != \
+            (vstr(MINV), vstr(MAXV)):
+        out.append(('version-range', 'service announces %s-%s, documentation 1.0-1.39' % (
+            microversion.min_version_string(), microversion.max_version_string())))
+    return out
 
 
 def make_worker(base_image, *args):
@@ -1035,7 +1277,7 @@ def make_worker(base_image, *args):
 # run / replay
 # ---------------------------------------------------------------------------------------------
 def all_cases(states):
-    cases = []
+    cases = [{'part': 'T', 'state': states[0], 'vv': 'none'}]
     for k in states:
         for route in ROUTES:
             for method in METHODS:
@@ -1048,8 +1290,20 @@ def all_cases(states):
     return cases
 
 
+def selftest(states):
+    """Every filter probe must be able to tell 'applied' from 'ignored' in every state."""
+    for k in states:
+        s = S(state_spec(k))
+        for fid, expect, base in FILTERS:
+            if expect(s) == base(s):
+                raise HarnessError('filter probe %r cannot discriminate in state %d' % (fid, k))
+        if not s.nested_pairs():
+            raise HarnessError('state %d has no nested candidates' % k)
+
+
 def run(ctx):
     states = [0] if ctx.quick else [0, 1, 2]
+    selftest(states)
     cases = all_cases(states)
     evaluations = 0
     cells = set()
@@ -1057,11 +1311,14 @@ def run(ctx):
     feat_cells = set()
     per_feature = {}
     allow_self = 0
+    notes = {}
     samples = []
     for c, res in zip(cases, vpenum.run_cases(ctx, 'vp.props.c14', cases, chunk=60)):
         evaluations += res['n']
         vv = VV_BY_ID[c['vv']]
-        if c['part'] == 'A':
+        if c['part'] == 'T':
+            pass
+        elif c['part'] == 'A':
             hist.setdefault(c['method'], {})
             hist[c['method']][str(res['status'])] = \
                 hist[c['method']].get(str(res['status']), 0) + 1
@@ -1073,6 +1330,8 @@ def run(ctx):
                 samples.append({'part': 'A', 'case': c, 'status': res['status']})
         else:
             feat_cells.add((c['feature'], c['vv'], res['present']))
+            if res.get('note'):
+                notes[res['note']] = notes.get(res['note'], 0) + 1
             row = per_feature.setdefault(c['feature'], {})
             if c['state'] == states[0]:
                 row[c['vv']] = res['present']
@@ -1114,6 +1373,7 @@ def run(ctx):
         'status_histogram_by_method': hist,
         'observed_presence_windows': windows,
         'note_405_allow_lists_refused_method': allow_self,
+        'notes_outside_scope': notes,
     })
     ctx.assumptions += [
         'oracle tables (INTRODUCED, normal_status, FEATURES) are hand-written from '
@@ -1161,8 +1421,9 @@ def replay(ctx, data):
             rvv = vv if len(t) == 4 else VV_BY_ID[t[4]]
             resp = http.call(h.app, req(rvv, *t[:4]))
             resps.append((resp.status, resp.headers, resp.json, rvv['id']))
-        _, viol = judge_b(f, vv, resps, s)
-        last = resps[-1][0]
+        _, viol = judge_b(f, vv, resps, s,
+                          [template(t[0], t[1]) for t in f.probe(s, vv['applied'])])
+        last = resps[0][0]
     hit = [m for g, m in viol if g == sig]
     if hit:
         return False, 'reproduced: %s (case %s, last status %s)' % (hit[0], c, last)
